@@ -57,12 +57,20 @@ class Transcript:
         self.kconf = None
 
 
+class _Utf8Out(io.StringIO):
+    """Captured stdout that refuses what a real UTF-8 stdout refuses (lone surrogates), with the same exception."""
+
+    def write(self, s):
+        s.encode("utf-8")
+        return super().write(s)
+
+
 class Session:
     def __init__(self, kconfig: str, sdkconfig: str, rename: Optional[str] = None, version: int = 3, parser: int = 1):
         self.kconfig, self.sdkconfig, self.rename, self.version, self.parser = kconfig, sdkconfig, rename, version, parser
         self.t = Transcript()
         self._queue: List[Any] = []
-        self._out = io.StringIO()
+        self._out = _Utf8Out()
         self._mark = 0
         self._started = False
         self._proxy = None
